@@ -184,6 +184,7 @@ type Failure struct {
 	What   string         `json:"what"`
 	Family string         `json:"family"`
 	Seed   uint64         `json:"case_seed"`
+	Idx    int            `json:"case_idx"`
 	Detail map[string]any `json:"detail"`
 }
 
@@ -287,7 +288,7 @@ func (c *Case) fail(kind, key, what string) {
 	}
 	c.X.failCount[kind+"/"+key]++
 	if c.X.failCount[kind+"/"+key] <= 2 {
-		c.X.fails = append(c.X.fails, Failure{Kind: kind, Key: key, What: what, Family: c.Fam, Seed: c.Seed, Detail: d})
+		c.X.fails = append(c.X.fails, Failure{Kind: kind, Key: key, What: what, Family: c.Fam, Seed: c.Seed, Idx: c.Idx, Detail: d})
 	}
 	c.X.mu.Unlock()
 }
@@ -335,7 +336,7 @@ func clip(s string) string {
 
 func (x *Ctx) Add(f *Family) { x.families = append(x.families, f) }
 
-func (x *Ctx) runFamilies(only string, onlySeed uint64, replay bool) {
+func (x *Ctx) runFamilies(only string, onlySeed uint64, replay bool, replayIdx ...int) {
 	workers := runtime.NumCPU()
 	if workers > len(x.Oracles) {
 		workers = len(x.Oracles)
@@ -370,10 +371,14 @@ func (x *Ctx) runFamilies(only string, onlySeed uint64, replay bool) {
 						return
 					}
 					cs := mix(x.Seed, f.Name, uint64(i))
+					idx := i
 					if replay {
 						cs = onlySeed
+						if len(replayIdx) > 0 {
+							idx = replayIdx[0]
+						}
 					}
-					c := &Case{X: x, R: NewRNG(cs), Fam: f.Name, Seed: cs, Idx: i, O: x.Oracles[k]}
+					c := &Case{X: x, R: NewRNG(cs), Fam: f.Name, Seed: cs, Idx: idx, O: x.Oracles[k]}
 					func() {
 						defer func() {
 							if r := recover(); r != nil {
@@ -483,7 +488,7 @@ func (x *Ctx) finish(verifDir string, proof *ProofInfo, level string) int {
 			nviol++
 			p := writeReplay(fmt.Sprintf("%s-%s-%d.json", x.Prop, sanitize(f.Key), f.Seed), map[string]any{
 				"property": x.Prop, "kind": f.Kind, "key": f.Key, "what": f.What, "family": f.Family,
-				"case_seed": f.Seed, "tier": x.Tier, "seed": x.Seed, "detail": f.Detail,
+				"case_seed": f.Seed, "case_idx": f.Idx, "tier": x.Tier, "seed": x.Seed, "detail": f.Detail,
 				"replay_cmd": fmt.Sprintf("bin/check replay %s", filepath.Join("replays", fmt.Sprintf("%s-%s-%d.json", x.Prop, sanitize(f.Key), f.Seed))),
 			})
 			fmt.Printf("VIOLATION property=%s replay=%s\n", x.Prop, p)
@@ -499,6 +504,7 @@ func (x *Ctx) finish(verifDir string, proof *ProofInfo, level string) int {
 			d["what"] = corr[0].What
 			d["family"] = corr[0].Family
 			d["case_seed"] = corr[0].Seed
+			d["case_idx"] = corr[0].Idx
 			d["detail"] = corr[0].Detail
 			d["all_broken_correspondences"] = distinctKeys(corr)
 			name = corr[0].Key
